@@ -1,16 +1,457 @@
-//! Twin monitors: clone (C10) and save+load (C08). (filled in below)
+//! Twin monitors: clone (C10) and save+load (C08). Model-free: the oracle is the other copy.
+//! After the copy is made both graphs receive the same calls in lock-step; every return value and
+//! the digest after every call must agree (differential continuation), through a final drain.
+
+use crate::gen::{Gen, Profile};
 use crate::hist::{Ctx, HistMonitor, HistStats};
 use crate::ops::Op;
-use crate::rec::{Outcome, Session};
-pub struct C08;
-impl C08 { pub fn new() -> Self { C08 } }
-impl HistMonitor for C08 {
-    fn after(&mut self, _s: &mut Session, _op: &Op, _o: &Outcome, _c: &mut Ctx) -> Option<String> { None }
-    fn nontrivial(&self, _c: &HistStats) -> bool { false }
+use crate::rec::{digest, exec_raw, first_diff, Outcome, Ret, Session, O_EDGES, O_INSPECT, O_KEYS, O_TEXT};
+use crate::shim::Graph;
+use sodg::VerifSnapshot;
+
+const FULL: u8 = O_KEYS | O_EDGES | O_TEXT | O_INSPECT;
+const LIGHT: u8 = O_KEYS | O_EDGES;
+
+#[derive(Clone, Copy, PartialEq, Eq)]
+enum Kind {
+    Clone,
+    Reload,
 }
-pub struct C10;
-impl C10 { pub fn new() -> Self { C10 } }
-impl HistMonitor for C10 {
-    fn after(&mut self, _s: &mut Session, _op: &Op, _o: &Outcome, _c: &mut Ctx) -> Option<String> { None }
-    fn nontrivial(&self, _c: &HistStats) -> bool { false }
+
+pub struct Twin {
+    kind: Kind,
+    twin: Option<Box<dyn Graph>>,
+    /// For Reload: which of the two is the reloaded graph, and its allocator position as the
+    /// statement prescribes it (restart from the lowest absent id).
+    reloaded_is_main: bool,
+    reloaded_pos: usize,
+    /// Position of the original graph's allocator (from the hook, only to decide alignment).
+    orig_pos: usize,
+    pre_main_pos: usize,
+    /// Frozen copies (never touched again) with their digest at copy time: independence.
+    frozen: Vec<(Box<dyn Graph>, String, crate::model::Model)>,
+    uniq: u64,
+    // non-triviality
+    qualified_copy: bool,
+    collected_after_copy: bool,
+    allocated_after_copy: bool,
+    lockstep_calls: u64,
+}
+
+pub type C08 = Twin;
+pub type C10 = Twin;
+
+impl Twin {
+    pub fn new() -> Self {
+        Self::make(Kind::Reload)
+    }
+    pub fn new_clone() -> Self {
+        Self::make(Kind::Clone)
+    }
+    fn make(kind: Kind) -> Self {
+        Self {
+            kind,
+            twin: None,
+            reloaded_is_main: false,
+            reloaded_pos: 0,
+            orig_pos: 0,
+            pre_main_pos: 0,
+            frozen: vec![],
+            uniq: 0,
+            qualified_copy: false,
+            collected_after_copy: false,
+            allocated_after_copy: false,
+            lockstep_calls: 0,
+        }
+    }
+    fn twin_name(&self) -> &'static str {
+        match (self.kind, self.reloaded_is_main) {
+            (Kind::Clone, _) => "other copy of the clone pair",
+            (Kind::Reload, true) => "original graph",
+            (Kind::Reload, false) => "reloaded graph",
+        }
+    }
+    fn what(&self) -> &'static str {
+        match self.kind {
+            Kind::Clone => "clone",
+            Kind::Reload => "reloaded graph",
+        }
+    }
+}
+
+fn snap_equal_mod_alloc(a: &VerifSnapshot, b: &VerifSnapshot, ignore_next: bool) -> Option<String> {
+    if a.capacity != b.capacity {
+        return Some(format!("capacity {} vs {}", a.capacity, b.capacity));
+    }
+    if a.slots != b.slots {
+        for (x, y) in a.slots.iter().zip(b.slots.iter()) {
+            if x != y {
+                return Some(format!(
+                    "slot ν{}: branch {}/{} persistence {}/{} inline {}/{} data {}/{} bytes, edges {}/{}",
+                    x.id, x.branch, y.branch, x.persistence, y.persistence, x.data_inline, y.data_inline,
+                    x.data.len(), y.data.len(), x.edges.len(), y.edges.len()
+                ));
+            }
+        }
+        return Some("slot lists differ in length".to_string());
+    }
+    if a.members != b.members {
+        return Some("member lists differ".to_string());
+    }
+    if a.stores != b.stores {
+        return Some("unread counters differ".to_string());
+    }
+    if !ignore_next && a.next_v != b.next_v {
+        return Some(format!("allocator position {} vs {}", a.next_v, b.next_v));
+    }
+    None
+}
+
+impl HistMonitor for Twin {
+    fn before(&mut self, s: &mut Session, _op: &Op, _ctx: &mut Ctx) {
+        self.pre_main_pos = s.m.pos;
+    }
+    fn after(&mut self, s: &mut Session, op: &Op, o: &mut Outcome, ctx: &mut Ctx) -> Option<String> {
+        let is_copy_op = matches!(
+            (self.kind, op),
+            (Kind::Clone, Op::Clone { .. }) | (Kind::Reload, Op::SaveLoad { .. })
+        );
+        let pre_reloaded_pos = self.reloaded_pos;
+        // 0. the reloaded graph's own allocator rule, when the graph under test is the reloaded one
+        if let (Op::NextId, Kind::Reload, true, true) = (op, self.kind, self.reloaded_is_main, self.twin.is_some()) {
+            let want = (self.reloaded_pos..s.cap).find(|v| !o.keys_before.contains(v));
+            if let (Ret::Id(id), Some(w)) = (&o.ret, want) {
+                if *id != w {
+                    return Some(format!(
+                        "next_id() on the reloaded graph returned {id}; restarting from the lowest absent id gives {w}"
+                    ));
+                }
+                self.reloaded_pos = id + 1;
+                ctx.c.inc("twin.reloaded-next_id-checked");
+            }
+        }
+        // 1. lock-step: apply the op to the current twin and compare
+        if let (Some(tw), false) = (&mut self.twin, is_copy_op) {
+            let aligned = match self.kind {
+                Kind::Clone => true,
+                Kind::Reload => {
+                    // allocators agree iff both would hand out the same id next
+                    let keys = tw.keys();
+                    let first_abs = |from: usize| (from..s.cap).find(|v| !keys.contains(v));
+                    // (one of the two positions is the reloaded graph's, the other the original's;
+                    //  s.m.pos is the main graph's, whichever that is)
+                    if self.reloaded_is_main {
+                        first_abs(self.orig_pos) == first_abs(pre_reloaded_pos)
+                    } else {
+                        first_abs(self.pre_main_pos) == first_abs(pre_reloaded_pos)
+                    }
+                }
+            };
+            let alloc_dep = match op {
+                Op::NextId | Op::Merge { .. } => true,
+                Op::Script { cmds, .. } => cmds.iter().any(|c| {
+                    use crate::ops::{Cmd, Ident};
+                    let v = |i: &Ident| matches!(i, Ident::Var(_));
+                    match c {
+                        Cmd::Add(i) | Cmd::Put(i, _) => v(i),
+                        Cmd::Bind(a, b, _) => v(a) || v(b),
+                    }
+                }),
+                _ => false,
+            };
+            // next_id() is only within the quantifier while an absent id at or above the position remains
+            let twin_next_ok = {
+                let keys = tw.keys();
+                let tp = if self.kind == Kind::Clone {
+                    s.m.pos.min(o.keys_before.len() + s.cap) // same allocator as main: legal iff main's was
+                } else if self.reloaded_is_main {
+                    self.orig_pos
+                } else {
+                    self.reloaded_pos
+                };
+                self.kind == Kind::Clone || (tp..s.cap).any(|v| !keys.contains(&v))
+            };
+            if matches!(op, Op::NextId) && !twin_next_ok {
+                ctx.c.inc("twin.next_id-skipped-on-twin-outside-quantifier");
+            } else if alloc_dep && !aligned && !matches!(op, Op::NextId) {
+                // ids of new vertices would legitimately differ: end this twin probe here
+                ctx.c.inc("twin.dropped-unaligned-allocator");
+                self.twin = None;
+            } else {
+                let keys_before_twin = tw.keys();
+                let r = exec_raw(tw, op, &s.workdir, &mut self.uniq, &ctx.labels);
+                self.lockstep_calls += 1;
+                ctx.c.inc("twin.lockstep-calls");
+                let r = match r {
+                    Ok(r) => r,
+                    Err(p) => {
+                        return Some(format!(
+                            "{} panicked on the {} ({p}) but not on the other copy",
+                            op.show(),
+                            self.twin_name()
+                        ))
+                    }
+                };
+                // return values
+                let main_ret = match (op, &o.other) {
+                    (Op::Slice(_), Some(sl)) => Ret::Res(Ok(digest(sl.as_ref(), LIGHT, &ctx.labels))),
+                    _ => o.ret.clone(),
+                };
+                if let Op::NextId = op {
+                    if self.kind == Kind::Reload {
+                        // each graph obeys its own allocator; the reloaded one restarts from the lowest absent id
+                        if !self.reloaded_is_main {
+                            let want = (self.reloaded_pos..s.cap).find(|v| !keys_before_twin.contains(v));
+                            if let (Ret::Id(id), Some(w)) = (&r, want) {
+                                if *id != w {
+                                    return Some(format!(
+                                        "next_id() on the reloaded graph returned {id}; restarting from the lowest absent id gives {w}"
+                                    ));
+                                }
+                                self.reloaded_pos = id + 1;
+                                ctx.c.inc("twin.reloaded-next_id-checked");
+                            }
+                        }
+                        if aligned && main_ret != r {
+                            return Some(format!(
+                                "next_id() returned {main_ret:?} on one copy and {r:?} on the other although both allocators are at the same point"
+                            ));
+                        }
+                    } else if main_ret != r {
+                        return Some(format!("next_id() returned {main_ret:?} on the original line and {r:?} on the clone line"));
+                    }
+                    self.allocated_after_copy = true;
+                } else if main_ret != r {
+                    return Some(format!(
+                        "{} returned {} on one copy and {} on the {}",
+                        op.show(),
+                        short(&main_ret),
+                        short(&r),
+                        self.what()
+                    ));
+                }
+                if matches!(op, Op::Merge { .. }) {
+                    self.allocated_after_copy = true;
+                }
+                // allocator bookkeeping (positions only move through allocator results)
+                if let (Op::NextId, Ret::Id(id)) = (op, &r) {
+                    if self.reloaded_is_main {
+                        self.orig_pos = self.orig_pos.max(id + 1);
+                    }
+                }
+                for p in &o.prims {
+                    if let (crate::model::Prim::NextId(id), false) = (p, matches!(op, Op::NextId)) {
+                        self.reloaded_pos = self.reloaded_pos.max(id + 1);
+                        self.orig_pos = self.orig_pos.max(id + 1);
+                    }
+                }
+                if let Op::Data(_) = op {
+                    if o.keys_after.len() < o.keys_before.len() {
+                        self.collected_after_copy = true;
+                    }
+                }
+                let a = digest(s.g.as_ref(), LIGHT, &ctx.labels);
+                let b = digest(self.twin.as_ref().unwrap().as_ref(), LIGHT, &ctx.labels);
+                if a != b {
+                    return Some(format!(
+                        "after {} the two copies differ: {}",
+                        op.show(),
+                        first_diff(&a, &b)
+                    ));
+                }
+            }
+        }
+        // 2. a new copy was made by this op
+        if is_copy_op {
+            let Some(other) = &o.other else {
+                if let Ret::Res(Err(e)) = &o.ret {
+                    return Some(format!("save+load of a reachable graph failed: {e}"));
+                }
+                return None;
+            };
+            let a = digest(s.g.as_ref(), FULL, &ctx.labels);
+            let b = digest(other.as_ref(), FULL, &ctx.labels);
+            if a != b {
+                return Some(format!("right after {}: the copy differs from the source: {}", op.show(), first_diff(&a, &b)));
+            }
+            // complete internal state (trigger + evidence of "same read/unread status, same encoding")
+            let (sa, sb) = (s.g.snapshot(), other.snapshot());
+            if let Some(d) = snap_equal_mod_alloc(&sa, &sb, self.kind == Kind::Reload) {
+                ctx.c.inc("twin.snapshot-differs");
+                // latent: make it observable with an immediate lock-step drain below (finish does it);
+                // remember the description for the report
+                ctx.c.inc(&format!("twin.snapshot-diff.{}", d.split(':').next().unwrap_or("x").replace(' ', "-")));
+            } else {
+                ctx.c.inc("twin.snapshot-equal");
+            }
+            // non-triviality of the copy point
+            let has_unread_heap_in_group = sa.slots.iter().any(|x| x.branch >= 2 && x.persistence == 1 && !x.data_inline);
+            let has_history_slot = sa.slots.iter().any(|x| x.branch == 0 && (!x.edges.is_empty() || x.persistence != 0));
+            let lowest_absent = (0..s.cap).find(|v| !o.keys_after.contains(v));
+            let pos_main = s.m.pos;
+            match self.kind {
+                Kind::Reload => {
+                    if has_unread_heap_in_group && has_history_slot {
+                        self.qualified_copy = true;
+                    }
+                }
+                Kind::Clone => {
+                    if has_unread_heap_in_group && lowest_absent.is_some_and(|l| pos_main > l) {
+                        self.qualified_copy = true;
+                    }
+                }
+            }
+            // independence: keep a frozen copy of the one that is continued... made by the same mechanism
+            if self.frozen.len() < 2 {
+                let frozen: Option<Box<dyn Graph>> = match self.kind {
+                    Kind::Clone => crate::rec::guarded(|| s.g.clone_box()).ok(),
+                    Kind::Reload => {
+                        let mut g2 = crate::rec::guarded(|| s.g.clone_box()).ok();
+                        // a second image of the same graph, loaded and never touched again
+                        if let Some(g) = &mut g2 {
+                            let mut tmp: Box<dyn Graph> = std::mem::replace(g, crate::shim::new_graph(1, 1));
+                            let _ = exec_raw(&mut tmp, &Op::SaveLoad { swap: true }, &s.workdir, &mut self.uniq, &ctx.labels);
+                            *g = tmp;
+                        }
+                        g2
+                    }
+                };
+                if let Some(f) = frozen {
+                    let d = digest(f.as_ref(), FULL, &ctx.labels);
+                    if d != a {
+                        return Some(format!("a second copy taken at the same point differs: {}", first_diff(&a, &d)));
+                    }
+                    self.frozen.push((f, d, s.m.clone()));
+                }
+            }
+            // the copy not continued becomes the twin for the rest of the history
+            let swap = matches!(op, Op::Clone { swap: true } | Op::SaveLoad { swap: true });
+            self.reloaded_is_main = swap;
+            self.reloaded_pos = 0;
+            self.orig_pos = sa.next_v.max(sb.next_v);
+            self.twin = o.other.take();
+        }
+        None
+    }
+
+    fn finish(&mut self, s: &mut Session, ctx: &mut Ctx) -> Option<String> {
+        // lock-step drain: which vertices get collected, and when, must agree to the end
+        if self.twin.is_some() {
+            let mut order: Vec<usize> =
+                s.m.verts.iter().filter(|(_, x)| x.data.is_some()).map(|(v, _)| *v).collect();
+            ctx.rng.shuffle(&mut order);
+            let mut twice = order.clone();
+            twice.extend(order.iter().copied());
+            for v in twice {
+                if !s.g.keys().contains(&v) {
+                    continue;
+                }
+                let op = Op::Data(v);
+                let o = s.step(&op);
+                if o.panic.is_some() {
+                    return None;
+                }
+                let tw = self.twin.as_mut().unwrap();
+                let r = exec_raw(tw, &op, &s.workdir, &mut self.uniq, &ctx.labels);
+                ctx.c.inc("twin.drain-reads");
+                match r {
+                    Err(p) => return Some(format!("drain: data({v}) panicked on the {} ({p}) only", self.what())),
+                    Ok(r) => {
+                        if r != o.ret {
+                            return Some(format!(
+                                "drain: data({v}) returned {} on one copy and {} on the {}",
+                                short(&o.ret),
+                                short(&r),
+                                self.what()
+                            ));
+                        }
+                    }
+                }
+                if o.keys_after.len() < o.keys_before.len() {
+                    self.collected_after_copy = true;
+                }
+                let a = digest(s.g.as_ref(), LIGHT, &ctx.labels);
+                let b = digest(self.twin.as_ref().unwrap().as_ref(), LIGHT, &ctx.labels);
+                if a != b {
+                    return Some(format!("drain: after data({v}) the two copies differ: {}", first_diff(&a, &b)));
+                }
+                if s.g.keys() != s.m.keys() {
+                    let snap = s.g.snapshot();
+                    s.m.resync(&snap);
+                }
+            }
+            let a = digest(s.g.as_ref(), FULL, &ctx.labels);
+            let b = digest(self.twin.as_ref().unwrap().as_ref(), FULL, &ctx.labels);
+            if a != b && (self.kind == Kind::Clone) {
+                return Some(format!("at the end the two copies print differently: {}", first_diff(&a, &b)));
+            }
+        }
+        // independence: frozen copies must not have moved while the others were mutated
+        for (f, d, _) in &self.frozen {
+            let now = digest(f.as_ref(), FULL, &ctx.labels);
+            ctx.c.inc("twin.frozen-copies-checked");
+            if now != *d {
+                return Some(format!(
+                    "a copy that was never touched changed while the other graph was mutated: {}",
+                    first_diff(d, &now)
+                ));
+            }
+        }
+        // and the other direction: mutate a frozen copy heavily, the graph under test must not move
+        if let Some((f, _, fm)) = self.frozen.pop() {
+            let before = digest(s.g.as_ref(), FULL, &ctx.labels);
+            let mut f = f;
+            let mut gm = fm;
+            let mut gen = Gen::new(ctx.rng.next(), Profile::Classic, s.n, s.cap);
+            gen.labels = if ctx.labels.is_empty() { gen.labels } else { ctx.labels.clone() };
+            for _ in 0..40 {
+                let op = gen.next_op(&gm);
+                let r = exec_raw(&mut f, &op, &s.workdir, &mut self.uniq, &ctx.labels);
+                ctx.c.inc("twin.independence-mutations");
+                match (&op, r) {
+                    (_, Err(_)) => break,
+                    (Op::Add(v), _) => {
+                        gm.add(*v);
+                    }
+                    (Op::Bind(a, b, l), _) => {
+                        gm.bind(*a, *b, *l);
+                    }
+                    (Op::Put(v, d), _) => gm.put(*v, &d.bytes()),
+                    (Op::Data(v), _) => {
+                        gm.data(*v);
+                    }
+                    (Op::NextId, Ok(Ret::Id(id))) => gm.adopt_next_id(id),
+                    _ => {}
+                }
+                if f.keys() != gm.keys() {
+                    break; // not this monitor's business
+                }
+            }
+            let after = digest(s.g.as_ref(), FULL, &ctx.labels);
+            if before != after {
+                return Some(format!(
+                    "mutating a copy changed the graph it was copied from: {}",
+                    first_diff(&before, &after)
+                ));
+            }
+        }
+        ctx.c.add("twin.lockstep-calls-total", 0);
+        None
+    }
+
+    fn nontrivial(&self, _st: &HistStats) -> bool {
+        match self.kind {
+            Kind::Reload => self.qualified_copy && self.collected_after_copy,
+            Kind::Clone => self.qualified_copy && self.collected_after_copy && self.allocated_after_copy,
+        }
+    }
+}
+
+fn short(r: &Ret) -> String {
+    let s = format!("{r:?}");
+    if s.chars().count() > 160 {
+        format!("{}…", s.chars().take(160).collect::<String>())
+    } else {
+        s
+    }
 }
